@@ -273,7 +273,10 @@ PROPS["C06"] = {
                         {"cmd": "c15", "tag": "c15"},
                         # the provider's bid handler facing a bidder (and a chain client whose calls end
                         # with the bidder's stream): the C01 driver, judged by the C01 model
-                        {"cmd": "handlebid", "tag": "handlebid", "env": {"VERIF_PROP": "C01"}}],
+                        {"cmd": "handlebid", "tag": "handlebid", "env": {"VERIF_PROP": "C01"}},
+                        # the provider's RPC service between the bid handler and the decision engine (bids and
+                        # decisions are peer- and engine-controlled): the C12 driver
+                        {"kind": "overlay", "pkg": "pkg/rpc/provider", "pkgname": "providerapi", "files": ["provider/c12_test.go"], "test": "TestVerifC12", "tag": "random"}],
     "level_text": "Theorems: every partial operation that peer-controlled data can reach is modelled with Go's panicking semantics and proved unreachable in the panicking case - sig[64] in eipVerify and the embedded-bid dereference in VerifyPreConfirmation (for every hash function and scheme), the signature slice in signer.Verify (reached only after recovery succeeded, i.e. for 65-byte signatures; the guard is shown necessary), the prefix slice in GetEthAddressFromPeerID (reached only after decompression succeeded), the registry dereference in Disconnected (from the C14 invariant), BytesToAddress total for every length; frame reading is total. Tied to the real entry points invoked the way libp2p invokes them: handshake handler and Connect (all signature lengths 0..70, role strings, non-secp256k1 identities, echo shapes), the AddStreamHandlers wrapper with the real preconfirmation and discovery handlers behind it (digest/signature length classes, non-numeric and huge amounts, extreme numbers, gossip addresses of length 0..40, hostile contact records through the real Connect), the bidder's SendBid reading hostile commitments through the real stream decoder, raw ReadMsg/ReadHeader, oversize/truncated/empty/OK-error frames, byte-level mutations and random bytes.",
     "level_note": "Trusted: Lean kernel; harness; third-party decoders (protobuf, multiaddr / AddrInfo JSON, msgio) are exercised, not modelled (partial). The libp2p Service is built with a metrics registry, as the node does (without one its counters are nil and a failed inbound handshake dereferences them - noted in DESIGN.md).",
     "nontrivial_rule": "distinct (entry point, tag, wire length class) cells",
